@@ -251,6 +251,12 @@ func internalMarshalAs(v any, slot reflect.Type, guard *cycleGuard) (*internalSt
 				}
 
 				ret.MapValues[k] = internalValue
+			} else if field.Anonymous {
+				// an embedded field of an unexported type: its exported fields are promoted, they are
+				// exported fields of this struct (encoding/json writes them too)
+				if err := marshalPromotedFields(ret, rt, rv.Field(i), []int{i}, guard); err != nil {
+					return nil, err
+				}
 			}
 		}
 
@@ -402,6 +408,49 @@ func internalMarshalAs(v any, slot reflect.Type, guard *cycleGuard) (*internalSt
 		ret.JSONValue = jsonBytes
 		return ret, nil
 	}
+}
+
+// marshalPromotedFields stores the exported fields that outer gets from an embedded field of an unexported
+// type (ev, reached through index) under their promoted names, where the decoder finds them with FieldByName.
+func marshalPromotedFields(ret *internalStruct, outer reflect.Type, ev reflect.Value, index []int, guard *cycleGuard) error {
+	et := ev.Type()
+	if et.Kind() == reflect.Ptr {
+		if et.Elem().Kind() != reflect.Struct || ev.IsNil() {
+			return nil // nothing is promoted, or nothing is there
+		}
+		for j := 0; j < et.Elem().NumField(); j++ {
+			if f := et.Elem().Field(j); f.PkgPath == "" || f.Anonymous {
+				// reflection cannot allocate an embedded pointer of an unexported type when decoding
+				return fmt.Errorf("unknown type: %v (embedded by pointer in %v)", et.Elem(), outer)
+			}
+		}
+		return nil
+	}
+	if et.Kind() != reflect.Struct {
+		return nil
+	}
+	for j := 0; j < et.NumField(); j++ {
+		f := et.Field(j)
+		idx := append(append([]int(nil), index...), j)
+		if f.PkgPath != "" {
+			if f.Anonymous {
+				if err := marshalPromotedFields(ret, outer, ev.Field(j), idx, guard); err != nil {
+					return err
+				}
+			}
+			continue
+		}
+		sf, ok := outer.FieldByName(f.Name)
+		if !ok || !reflect.DeepEqual(sf.Index, idx) {
+			return fmt.Errorf("field %s of %v, embedded in %v, is hidden by another field and cannot be serialized", f.Name, et, outer)
+		}
+		internalValue, err := internalMarshalAs(ev.Field(j).Interface(), f.Type, guard)
+		if err != nil {
+			return err
+		}
+		ret.MapValues[f.Name] = internalValue
+	}
+	return nil
 }
 
 func internalUnmarshal(v *internalStruct) (any, error) {
